@@ -64,14 +64,25 @@ void tap_opts(bool value_names, bool sched_points);
 // ---- running -----------------------------------------------------------------------------------
 struct Config {
     uint64_t seed = 1;
-    int strategy = 0;         // 0 uniform random, 1 sticky random, 2 PCT, 3 replay
+    int strategy = 0;         // 0 uniform random, 1 sticky random, 2 PCT, 3 replay, 4 prefix + deterministic default (DFS)
     int pct_depth = 3;
     int max_steps = 20000;    // per run; exceeded => livelock/step-limit verdict
     int spurious_budget = 2;  // spurious cv wake-ups per run
     int casfail_budget = 2;   // spurious weak-CAS failures per run
     int latewake_budget = 2;  // notified timed cv waits that nevertheless report a time-out, per run
     int stick_pct = 70;       // sticky strategy: probability (percent) to continue the same thread
-    std::vector<int> replay;  // strategy 3: recorded decisions
+    std::vector<int> replay;  // strategy 3: recorded decisions; strategy 4: the decision prefix to follow exactly
+};
+// strategy 4 (systematic exploration, driven by checks/dfs.py): the decisions of `replay` are followed exactly (a decision
+// that does not fit is a divergence: Result.diverged), afterwards the scheduler is DETERMINISTIC: the running thread keeps
+// running while it is enabled and has not just yielded/slept, otherwise the next enabled non-spinning thread in cyclic tid
+// order runs; a time-out fires only when nothing else can run; no spurious wake-up; choose()/chance() return 0 / false.
+// Every alternative that was available at a decision point after the prefix is reported:
+struct Alt {
+    int pos;   // index into Result.decisions
+    int dec;   // the other decision that could have been taken there (same encoding as the decisions)
+    int kind;  // bit 0: a preemption (switches away from a thread that is enabled and not spinning);
+               // bit 1: a weak event (time-out with other work available, spurious wake-up, late wake-up, spurious CAS failure)
 };
 struct Result {
     bool deadlock = false;
@@ -81,6 +92,8 @@ struct Result {
     std::vector<std::string> failures;
     std::vector<int> blocked;  // threads parked at deadlock
     long steps = 0;
+    std::vector<Alt> alts;     // strategy 4 only
+    int diverged = -1;         // strategy 4 only: position of the first prefix decision that did not fit (-1: none)
 };
 // start recording (main thread, tid 0); events emitted before run_threads (construction) are kept
 void begin(const Config& cfg);
